@@ -241,6 +241,13 @@ def _run(V, work, tier):
         picks = rnd.sample(LITS, 8)
         src = "(defun lits (a) (list a %s))\n(probe 'lits (lits 0))\n(probe 'sum (+ %s))\n" % (" ".join(picks), " ".join(x for x in picks if x[0] not in "\"':"))
         sessions.append(("literals%d" % i, [src], False, None))
+    # sessions of three files: an export form in another file than the definition; one name defined in two files and used
+    # from a third (the later definition wins at run time); packages entered with the spelled-out (quote p)
+    sessions.append(("export-elsewhere", ["(in-package 'lib)\n(export 'helper)\n", "(in-package 'lib)\n(defun helper (v) (+ v 1))\n(defun hidden (v) (helper v))\n",
+                                          "(in-package 'user)\n(use-package 'lib)\n(defun outer () (helper 41))\n(probe 'r (outer) (lib:hidden 1))\n"], False, None))
+    sessions.append(("two-definitions", ["(defun helper () 1)\n(probe 'first (helper))\n", "(defun helper () 2)\n", "(defun outer () (helper))\n(probe 'r (outer))\n"], False, None))
+    sessions.append(("quote-form-packages", ["(in-package (quote pa))\n(defun helper (v) (+ v 1))\n(export 'entry)\n(defun entry (v) (helper v))\n", "(in-package (quote pb))\n(defun helper (v) (+ v 2))\n(export 'entry2)\n(defun entry2 (v) (helper v))\n",
+                                             "(in-package (quote pa))\n(defmacro wrap (expr) (quasiquote (helper (unquote expr))))\n(defun outer (value) (wrap value))\n(probe 'r (outer 41) (pb:entry2 1))\n"], False, None))
     # the SAME programs cut into two files at a top-level boundary (one minify session over both files): what one file
     # defines and the other mentions - through a call, a macro body, a local macro, a template, a set - must keep meeting
     base = list(sessions)
